@@ -73,7 +73,7 @@ func Drive(out io.Writer, seed int64, runs, length int) (map[string]int, error) 
 			switch w := r.Intn(100); {
 			case w < 22:
 				e = M{"chain": "L1", "e": M{"type": "InitiateTokenDeposit", "signer": pick(r, bUsers), "b": int64(1), "to": pick(r, []string{"u1", "u2", "u3", "u1", "u2", l1.BadNotBech32, "opchild"}),
-					"denom": pick(r, []string{"d1", "d1", "d2", "d3"}), "amt": int64(r.Intn(40)), "data": "p0"}}
+					"denom": pick(r, []string{"d1", "d1", "d2", "d3"}), "amt": int64(r.Intn(40)), "data": pick(r, []string{"p0", "p0", "p0", "hw", "hwf"})}}
 			case w < 42 && len(p.Deps) > 0:
 				q := 1 + r.Intn(len(p.Deps))
 				if r.Intn(3) != 0 { // mostly the next expected one
@@ -83,7 +83,7 @@ func Drive(out io.Writer, seed int64, runs, length int) (map[string]int, error) 
 				}
 				d := absx.Map(p.Deps[q-1])
 				e = M{"chain": "L2", "e": M{"type": "FinalizeTokenDeposit", "signer": pick(r, []string{"e1", "e1", "e2", "x"}), "seq": d["seq"], "from": d["from"], "to": d["to"], "denom": d["l2denom"],
-					"amt": d["amt"], "base": d["l1denom"], "height": int64(5), "hook": M{"kind": "none", "signer": "", "msgs": []any{}}, "fault": "none"}}
+					"amt": d["amt"], "base": d["l1denom"], "height": int64(5), "hook": HookOf(d), "fault": "none"}}
 			case w < 56:
 				d := pick(r, []string{"d1", "d1", "d2", "d3"})
 				e = M{"chain": "L2", "e": M{"type": "InitiateTokenWithdrawal", "signer": pick(r, bUsers), "to": pick(r, []string{"u1", "u2", "u3", "u1", "up:u2", l1.BadNotBech32}), "denom": "l2/1/" + d, "amt": int64(r.Intn(15))}}
@@ -139,7 +139,7 @@ func Drive(out io.Writer, seed int64, runs, length int) (map[string]int, error) 
 			}
 			d := absx.Map(p.Deps[n-1])
 			if err := exec1(M{"chain": "L2", "e": M{"type": "FinalizeTokenDeposit", "signer": "e1", "seq": d["seq"], "from": d["from"], "to": d["to"], "denom": d["l2denom"],
-				"amt": d["amt"], "base": d["l1denom"], "height": int64(5), "hook": M{"kind": "none", "signer": "", "msgs": []any{}}, "fault": "none"}}); err != nil {
+				"amt": d["amt"], "base": d["l1denom"], "height": int64(5), "hook": HookOf(d), "fault": "none"}}); err != nil {
 				return nil, err
 			}
 		}
